@@ -81,6 +81,14 @@ CHECKS = {
              "under other PYTHONHASHSEED values after unrelated calls; reads with return_named_type are written back and must "
              "reproduce the bytes; tags under all four reader options must name the selected branch.",
         ref="DESIGN.md §4 C09"),
+    "C16": dict(
+        cat="exploration", tech="runtime monitoring: closed-form reference conversions as oracle over (thorough: exhaustively enumerated) value domains; stored integers/bytes read with an independent parser",
+        text="Logical-type values go through the real container writer/reader and schemaless functions; the stored varints and "
+             "bytes are extracted by the independent container parser and compared with closed-form integer arithmetic "
+             "(Hinnant day count, integer microsecond arithmetic, two's complement of value*10^scale); read-backs must equal the "
+             "input truncated to the type's precision, in UTC. Thorough enumerates all 3,652,059 dates and all 86,400,000 "
+             "time-millis values; decimals use a three-valued oracle (must raise / must succeed / either).",
+        ref="DESIGN.md §4 C16"),
 }
 
 NOT_YET = "check not built yet in this session (see DESIGN.md §8 build order)"
